@@ -408,7 +408,7 @@ def run(tier: str) -> int:
             check_case(ck, case, ans, "corpus")
     # random DAG workflows
     r = rng("c01")
-    n = 300 if tier == "quick" else 4500
+    n = 300 if tier == "quick" else 3500
     cases = []
     for i in range(n):
         mode = "obs" if r.random() < 0.6 else "mixed"
